@@ -494,7 +494,7 @@ class Engine:
                 if isinstance(g, tuple):
                     g, wit = g
                     info["witness"] = wit
-                ctx.oblige(f"{label}/ensures/{name}", g, info)
+                ctx.oblige(f"{label}/ensures/{name}", g, info, assume=False)     # every clause is judged on its own (a property's filter may drop some)
 
         before = len(self.obligations)
         npaths = self.explore(label, run)
